@@ -32,6 +32,15 @@ def scratch():
     return _scratch
 
 
+def build_dir():
+    """Where harness/build.sh puts the library objects of this run: private to the run (inside the scratch directory),
+    inherited by worker processes through the environment."""
+    if not os.environ.get("JLS_BUILD_DIR"):
+        os.environ["JLS_BUILD_DIR"] = os.path.join(scratch(), "build")
+    os.makedirs(os.environ["JLS_BUILD_DIR"], exist_ok=True)
+    return os.environ["JLS_BUILD_DIR"]
+
+
 def seed():
     try:
         return int(os.environ.get("VERIF_SEED", "1"))
@@ -61,10 +70,11 @@ def run(cmd, timeout=600, cwd=None, env=None, stdin=None, check=True, capture=Tr
 
 def build(flavour="plain", defs=()):
     """(Re)build the library objects from /repo's working tree."""
+    bd = build_dir()
     rc, out = run([os.path.join(HARNESS, "build.sh"), flavour] + list(defs), timeout=600, check=False)
     if rc != 0:
         raise ToolFailure("library build failed (%s):\n%s" % (flavour, out[-4000:]))
-    return os.path.join(ROOT, "build", flavour)
+    return os.path.join(bd, flavour)
 
 
 def link(out, sources, flavour="plain", wraps=(), cflags=(), libs=("-lm", "-lpthread"), extra_objs=()):
@@ -76,7 +86,7 @@ def link(out, sources, flavour="plain", wraps=(), cflags=(), libs=("-lm", "-lpth
     cmd += list(cflags)
     cmd += [os.path.join(HARNESS, s) if not os.path.isabs(s) else s for s in sources]
     cmd += list(extra_objs)
-    cmd += [os.path.join(ROOT, "build", flavour, "libjls.a")]
+    cmd += [os.path.join(build_dir(), flavour, "libjls.a")]
     for w in wraps:
         cmd.append("-Wl,--wrap=%s" % w)
     cmd += ["-o", out] + list(libs)
